@@ -53,7 +53,8 @@ Step(tags, ks, kind) ==
      ELSE /\ stats' = Bump(stats, ks) /\ nt' = (nt \/ ks \cap Binding # {})
 
 \* post: the packet's projection changed; memsame = FALSE: memory the caller owns around the packet was
-\* written (spare capacity behind one of its byte slices, or the buffer it was decoded from)
+\* written (spare capacity behind one of its byte slices, the buffer it was decoded from, or a result
+\* the library returned from an earlier call in the same case)
 Modified(ev) == (IF ev.post.k # "SAME" THEN {"C18:packet_modified"} ELSE {})
                 \cup (IF "memsame" \in DOMAIN ev /\ ~ev.memsame THEN {"C18:caller_memory_written"} ELSE {})
 InputMod(ev) == IF ~ev.bufsame THEN {"C18:input_modified"} ELSE {}
